@@ -76,6 +76,16 @@ func c01Run(f []string) string {
 	if f[0] == "trim" {
 		return trimRun(f)
 	}
+	switch f[0] {
+	case "summary":
+		return summaryRun(f)
+	case "hui":
+		return huiRun(f)
+	case "flags":
+		return flagsRun(f)
+	case "filtern":
+		return filterRun(f)
+	}
 	if strings.HasPrefix(f[0], "pmut") {
 		return "rejected" // the harness damaged this log itself: no run of the real code produces it
 	}
@@ -89,7 +99,8 @@ func c01Gen(r *Rand, tier string) []string {
 	out := pipeGen(r, tier)
 	out = append(out, pipeTraceGen(r, tier)...)
 	out = append(out, pipeMutGen(r, tier)...)
-	return append(out, trimGen(NewRand(r.U64()), tier)...)
+	out = append(out, trimGen(NewRand(r.U64()), tier)...)
+	return append(out, cliGen(NewRand(r.U64()), tier)...)
 }
 
 func c01Stats(cases []string) map[string]int {
@@ -105,6 +116,8 @@ func c01Stats(cases []string) map[string]int {
 			if b := UnHex(strings.Fields(c)[1]); !utf8.Valid(b) {
 				st["trim.invalid-utf8"]++
 			}
+		} else if f0 := strings.Fields(c)[0]; f0 == "summary" || f0 == "hui" || f0 == "flags" || f0 == "filtern" {
+			cliStats(st, c)
 		} else {
 			pipe = append(pipe, c)
 		}
